@@ -705,13 +705,13 @@ func TestC08Long(t *testing.T) {
 }
 
 func TestC08String(t *testing.T) {
-	pbt.Run(t, pbt.Spec{ID: "C08", Sub: "string", Quick: 5000, Thorough: 100000,
+	pbt.Run(t, pbt.Spec{ID: "C08", Sub: "string", Quick: 5000, Thorough: 60000,
 		Rule: "mycat_string vs PartitionByString (PairUtil.sequenceSlicing, StringUtil.hash over UTF-16 units): hash slices n, -n, a:b, a:, :b, :, -a:, :-b, -a:-b, -a:b with bounds 0-90; keys of 0-40 characters over ASCII, Latin-1, 2- and 3-byte BMP, combining marks, BMP edge code points and supplementary-plane characters, plus numeric keys; " + ruleText,
 		Floor: 0.5}, genCase("mycat_string"), checkCase)
 }
 
 func TestC08Murmur(t *testing.T) {
-	pbt.Run(t, pbt.Spec{ID: "C08", Sub: "murmur", Quick: 1500, Thorough: 20000,
+	pbt.Run(t, pbt.Spec{ID: "C08", Sub: "murmur", Quick: 1500, Thorough: 6000,
 		Rule: "mycat_murmur vs PartitionByMurmurHash (Guava murmur3_32 hashUnencodedChars, TreeMap tailMap ring): seeds over all int32 incl. 0, -1, MIN, MAX; virtual bucket counts 1-200 and the default; keys as for string; " + ruleText,
 		Floor: 0.5}, genCase("mycat_murmur"), checkCase)
 }
